@@ -451,10 +451,12 @@ def impl_header(it: Item):
         for j, t in enumerate(h):
             if t == "<":
                 depth += 1
-            elif t == ">":
-                depth -= 1
-                if depth == 0:
+            elif t in (">", ">>"):
+                depth -= len(t)
+                if depth <= 0:
                     break
+        if depth != 0:
+            fail("%s: impl generics not understood: %s", it.path, flat(h))
         gen = flat(h[1:j])
         h = h[j + 1:]
     if "for" in h:
